@@ -17,6 +17,7 @@ import (
 
 // Sent is one recorded SendMessage call.
 type Sent struct {
+	Seq int64
 	To  peer.ID
 	Msg datatransfer.Message
 	Err error
@@ -68,7 +69,7 @@ func (n *RecNet) SendMessage(ctx context.Context, to peer.ID, m datatransfer.Mes
 			}
 		}
 	}
-	n.Sends = append(n.Sends, Sent{To: to, Msg: cp, Err: err})
+	n.Sends = append(n.Sends, Sent{Seq: NextSeq(), To: to, Msg: cp, Err: err})
 	hold := n.HoldSend
 	n.mu.Unlock()
 	if hold != nil {
